@@ -1,5 +1,5 @@
 """C04 - results depend only on the input text, not on how it is delivered or split."""
-import os, re, glob, shutil, itertools
+import os, re, glob, shutil, itertools, pickle, select, time
 from hypothesis import strategies as st
 from .. import lib
 from ..core import Violation, Discard
@@ -181,6 +181,53 @@ def run_reference(db, text):
         return ref
     finally:
         I.close()
+
+
+REF_TIMEOUT = 300.0
+
+
+def guarded_reference(db, text):
+    """run_reference in a forked child.  An input whose *single-call* run kills the process (or never ends) is not an
+    error-free input: it lies outside the domain of this property (it is C08's business) and must not take the worker down."""
+    r, w = os.pipe()
+    pid = os.fork()
+    if pid == 0:
+        code = 3
+        try:
+            os.close(r)
+            data = pickle.dumps(run_reference(db, text), 2)
+            with os.fdopen(w, "wb") as f:
+                f.write(data)
+            code = 0
+        finally:
+            os._exit(code)
+    os.close(w)
+    chunks = []
+    deadline = time.time() + REF_TIMEOUT
+    timed_out = False
+    try:
+        while True:
+            left = deadline - time.time()
+            if left <= 0:
+                timed_out = True
+                os.kill(pid, 9)
+                break
+            if not select.select([r], [], [], min(left, 5.0))[0]:
+                continue
+            b = os.read(r, 1 << 20)
+            if not b:
+                break
+            chunks.append(b)
+    finally:
+        os.close(r)
+    status = os.waitpid(pid, 0)[1]
+    if timed_out:
+        return {"rc": "timeout", "err": "single-call run did not end within %d s" % REF_TIMEOUT}
+    if os.WIFSIGNALED(status):
+        return {"rc": "signal", "err": "single-call run died with signal %d" % os.WTERMSIG(status)}
+    if os.WEXITSTATUS(status) != 0:
+        return {"rc": "exit", "err": "reference child exited with %d" % os.WEXITSTATUS(status)}
+    return pickle.loads(b"".join(chunks))
 
 
 def pieces_of(sims, cuts):
@@ -374,11 +421,16 @@ def check_case(case, ctx):
         db, sims = example(case["name"])
         key = ("ex", case["name"])
         if key not in _ref_cache:
-            _ref_cache[key] = run_reference(db, "".join(sims))
+            _ref_cache[key] = guarded_reference(db, "".join(sims))
         ref = _ref_cache[key]
     else:
         db, sims = case["db"], case["sims"]
-        ref = run_reference(db, "".join(sims))
+        ref = guarded_reference(db, "".join(sims))
+    if ref["rc"] in ("signal", "timeout"):
+        ctx.event("whole_run_" + ref["rc"] + "_outside_domain")
+        raise Discard("whole_run_" + ref["rc"])
+    if ref["rc"] == "exit":
+        raise RuntimeError("reference child failed: " + ref["err"])
     if ref["rc"] != 0:
         raise Discard("whole_run_error")
     nb = len(sims) - 1
